@@ -2,7 +2,8 @@
 layout routine between measuring and writing."""
 import re
 from ..mir import call_matches, callee_name, op_local
-from ..flow import expr, resolve_place
+from ..flow import expr, resolve_place, arg_place, writes_to_field, TRANSPARENT_CALLS
+from ..mir import op_place
 
 CLAIM = {
     "text": "Structural clauses of C09 decided on MIR: (a) TerminalWriter touches the surface only through the bounds-checked get_mut(pos) and one fill "
@@ -10,7 +11,10 @@ CLAIM = {
             "(b) the three io::Write adapters feed the written buffer through one Cursor to a stateful decoder kept in `self`, forward every decoded "
             "item, and return cursor.position() (or buf.len() only where the sink reported it is full) — with C03's fold theorem the produced cells "
             "do not depend on how bytes are split across writes; (c) measuring (Text/str layout) and writing (put_cell) call the same Cell::layout "
-            "routine with wraps and width taken from corresponding sources. NOT decided: that every printable cell appears exactly once in reading order.",
+            "routine with wraps and width taken from corresponding sources; (c') WRAPS-AGREE: every put_cell reached from Text::render / str::render "
+            "(followed through closures and helper bodies such as put_text/put_char) goes to a writer whose wraps flag - the constant of TerminalWriter::new, "
+            "replaced by with_wraps/set_wraps - is the same term the paired layout hands to Cell::layout (self.wraps for Text, true for str); "
+            "floor 6 = 4 anchors (new/writer default, with_wraps, TerminalWriter::set_wraps, Text::wraps) + 1 put_cell per render. NOT decided: that every printable cell appears exactly once in reading order.",
     "technique": "MIR who-calls / who-writes rules, symbolic def-chasing templates, dominator analysis of return values",
     "design_ref": "DESIGN.md §5 C09",
 }
@@ -20,6 +24,159 @@ WRITERS = [
     ("<render::TTYCellWriter<W> as std::io::Write>::write", r"^<decoder::TTYCommandDecoder as decoder::Decoder>::decode$", False),
     ("<render::TerminalWriter<'_> as std::io::Write>::write", r"^<decoder::Utf8Decoder as decoder::Decoder>::decode$", True),
 ]
+# ---- wraps state of a writer value (WRAPS-AGREE) ---------------------------------------------------------------
+# CellWrite methods that configure/inspect a writer but emit nothing
+WR_CONFIG = r"CellWrite::(face|set_face|wraps|set_wraps|with_wraps|with_face|by_ref|scope)$|<.* as render::CellWrite>::(face|set_face|wraps|set_wraps)$"
+# value builders that hand the same writer (or an adapter that owns it) on: the wraps state is the receiver's
+WR_PASS = r"CellWrite::(with_(?!wraps$)\w+|utf8_writer|tty_writer)$"
+WR_NEW = r"TerminalSurfaceExt>?::writer$|^render::TerminalWriter::<[^<>]*>::new$"
+WR_LEAF = r"CellWrite::put_cell$|<.* as render::CellWrite>::put_cell$"
+UNKNOWN = "?"
+
+
+def _wr_root(b, place, depth=0):
+    """root object a writer operand denotes: ('arg', n) / ('up', k) closure capture / ('call', local) / ('unk', local)"""
+    l, proj = place["l"], place["p"]
+    if depth > 30:
+        return ("unk", l)
+    fields = [e for e in proj if e["k"] == "field"]
+    if 0 < l <= b.arg_count:
+        if b.kind == "Closure" and l == 1 and fields:
+            return ("up", fields[0]["i"]) if len(fields) == 1 else ("unk", l)
+        return ("unk", l) if fields else ("arg", l)
+    if fields:
+        return ("unk", l)
+    ds = b.defs_of(l)
+    if len(ds) != 1:
+        return ("unk", l)
+    bb, si, rv = ds[0]
+    if si == "term":
+        if (any(call_matches(rv, p) for p in TRANSPARENT_CALLS) or call_matches(rv, r"CellWrite::by_ref$")) and rv["args"] and op_place(rv["args"][0]):
+            return _wr_root(b, op_place(rv["args"][0]), depth + 1)
+        return ("call", l)
+    if rv["k"] == "use" and op_place(rv["a"]):
+        return _wr_root(b, rv["a"]["place"], depth + 1)
+    if rv["k"] == "ref":
+        return _wr_root(b, rv["place"], depth + 1)
+    return ("unk", l)
+
+
+class WrapsFlow:
+    """Follows writer values from an entry body through closures and callee bodies and records, for every
+    put_cell reached, the canonical term of the wraps flag the receiving writer was configured with
+    (terms are in the entry body's vocabulary: arg1 = the entry's self)."""
+
+    def __init__(self, prog, default):
+        self.prog = prog
+        self.default = default
+        self.leaves = []      # (state, chain, site)
+        self.opaque = []
+
+    # -- terms ---------------------------------------------------------------------------------
+    def term(self, b, operand, tenv):
+        e = expr(b, operand)
+        if tenv is not None:
+            def sub(m):
+                k = m.group(0)
+                if k in tenv:
+                    return tenv[k]
+                k1 = m.group(1)
+                if k1 in tenv:
+                    return tenv[k1] + (m.group(2) or "")
+                return "~" + k
+            e = re.sub(r"(?<![\w~])(arg\d+)(\.\d+)?\b", sub, e)
+        # Text::wraps(x) reads x.wraps (checked as an anchor by the caller)
+        for _ in range(4):
+            e2 = re.sub(r"CellWrite::wraps\(([^()]*)\)", r"\1.wraps", e)
+            if e2 == e:
+                break
+            e = e2
+        return e
+
+    # -- state ---------------------------------------------------------------------------------
+    def state(self, b, place, site, env, tenv, depth=0):
+        """wraps term of the writer `place` denotes at block `site`, None when it is not a tracked writer"""
+        root = _wr_root(b, place)
+        base = None
+        if root[0] in ("arg", "up"):
+            base = env.get(root)
+        elif root[0] == "call" and depth < 12:
+            bb, si, t = b.defs_of(root[1])[0]
+            if call_matches(t, r"CellWrite::with_wraps$") and len(t["args"]) == 2:
+                inner = op_place(t["args"][0])
+                if inner is not None and self.state(b, inner, bb, env, tenv, depth + 1) is not None:
+                    base = self.term(b, t["args"][1], tenv)
+            elif call_matches(t, WR_NEW):
+                base = self.default
+            elif call_matches(t, WR_PASS) and t["args"] and op_place(t["args"][0]):
+                base = self.state(b, op_place(t["args"][0]), bb, env, tenv, depth + 1)
+        if base is None:
+            return None
+        # set_wraps on the same object: the latest call dominating the site decides
+        cfg = b.cfg()
+        sets = []
+        for bb, t in b.calls():
+            if call_matches(t, r"CellWrite::set_wraps$|<.* as render::CellWrite>::set_wraps$") and len(t["args"]) == 2 and op_place(t["args"][0]):
+                if _wr_root(b, op_place(t["args"][0])) == root:
+                    sets.append((bb, t))
+        dom = [(bb, t) for bb, t in sets if bb != site and cfg.dominates(bb, site)]
+        for bb, t in sets:
+            if (bb, t) not in dom and bb != site and site in cfg.reachable_from(bb):
+                return UNKNOWN
+        if dom:
+            last = [x for x in dom if all(cfg.dominates(y[0], x[0]) for y in dom)]
+            if len(last) != 1:
+                return UNKNOWN
+            return self.term(b, last[0][1]["args"][1], tenv)
+        return base
+
+    # -- walk ----------------------------------------------------------------------------------
+    def scan(self, b, env, tenv, chain=(), stack=()):
+        if b.path in stack or len(stack) > 8:
+            return
+        stack = stack + (b.path,)
+        chain = chain + (b.path,)
+        # closures capturing a writer
+        for i, si, s in b.assigns():
+            rv = s["rv"]
+            if rv["k"] == "agg" and rv["ak"] == "closure":
+                cenv, ctenv = {}, {}
+                for k, f in enumerate(rv["fields"]):
+                    ctenv["arg1.%d" % k] = self.term(b, f, tenv)
+                    fp = op_place(f)
+                    if fp is not None:
+                        st = self.state(b, fp, i, env, tenv)
+                        if st is not None:
+                            cenv[("up", k)] = st
+                cb = self.prog.body(rv["def"])
+                if cenv and cb is not None:
+                    self.scan(cb, cenv, ctenv, chain, stack)
+        for bb, t in b.calls():
+            wargs = {}
+            for k, a in enumerate(t["args"]):
+                ap = op_place(a)
+                if ap is None:
+                    continue
+                st = self.state(b, ap, bb, env, tenv)
+                if st is not None:
+                    wargs[k] = st
+            if not wargs or call_matches(t, WR_CONFIG):
+                continue
+            nm = callee_name(t) or "<indirect>"
+            site = "%s:%d" % (b.file, t["line"])
+            if call_matches(t, WR_LEAF):
+                if 0 in wargs:
+                    self.leaves.append((wargs[0], chain, site))
+                continue
+            cb = self.prog.body(t["fn"].get("resolved") or "") or self.prog.body(t["fn"].get("path") or "")
+            if cb is not None and cb.kind != "Closure":
+                cenv = {("arg", k + 1): st for k, st in wargs.items()}
+                ctenv = {"arg%d" % (k + 1): self.term(b, a, tenv) for k, a in enumerate(t["args"])}
+                self.scan(cb, cenv, ctenv, chain, stack)
+            elif re.search(r"CellWrite::|Write::write", nm):
+                self.opaque.append((sorted(wargs.values())[0], chain + (nm,), site, nm))
+
+
 SURF_MUTATORS = r"^surface::SurfaceMut::(get_mut|data_mut|iter_mut|fill|fill_with|clear|insert|set|view_mut|as_mut)$|<.* as surface::SurfaceMut>::(get_mut|data_mut|iter_mut|fill|fill_with|clear|insert|set|view_mut|as_mut)$"
 
 
@@ -170,6 +327,71 @@ def run(ctx):
         if p not in callers:
             ctx.violation("SHARED-LAYOUT", p, "missing", "%s no longer calls Cell::layout: text measuring and text writing use different routines" % p, sites=[])
 
+    # ---------------- (c') the writer a view renders through is configured with the wraps flag its layout measured with -----
+    ctx.rule("WRAPS-AGREE", "every put_cell reached from a text view's render goes to a writer whose wraps flag is the term its layout passed to Cell::layout "
+             "(default of TerminalWriter::new, with_wraps/set_wraps, followed through closures and helper bodies)", floor=6)
+    default = None
+    nb = prog.body("render::TerminalWriter::<'a>::new") or prog.one(r"^render::TerminalWriter::<[^<>]*>::new$")
+    if nb is not None:
+        for i, si, s in nb.assigns():
+            rv = s["rv"]
+            if rv["k"] == "agg" and rv["ak"] == "adt" and rv["adt"] == "render::TerminalWriter" and "wraps" in (rv.get("fnames") or []) and s["place"]["l"] == 0:
+                default = expr(nb, rv["fields"][rv["fnames"].index("wraps")])
+    wb = prog.one(r"TerminalSurfaceExt>::writer$")
+    ok_new = default is not None and re.match(r"^\d+$", default) is not None and wb is not None \
+        and expr(wb, {"k": "copy", "place": {"l": 0, "p": []}}).startswith("TerminalWriter::new(")
+    ctx.instance("WRAPS-AGREE", {"anchor": "TerminalWriter::new / TerminalSurfaceExt::writer start with a constant wraps flag", "default": default, "ok": ok_new})
+    if not ok_new:
+        ctx.anchor("WRAPS-AGREE", "TerminalWriter::new/wraps-default")
+    # with_wraps(self, w) == { self.set_wraps(w); self }  and  TerminalWriter::set_wraps stores w into self.wraps (the field put_cell hands to Cell::layout)
+    ww = prog.body("render::CellWrite::with_wraps")
+    ok_ww = False
+    if ww is not None:
+        sc = [(bb, t) for bb, t in ww.calls() if call_matches(t, r"CellWrite::set_wraps$")]
+        ok_ww = len(sc) == 1 and expr(ww, sc[0][1]["args"][0]) == "arg1" and expr(ww, sc[0][1]["args"][1]) == "arg2" \
+            and expr(ww, {"k": "copy", "place": {"l": 0, "p": []}}) == "arg1" and len(list(ww.calls())) == 1
+    ctx.instance("WRAPS-AGREE", {"anchor": "with_wraps(self, w) = set_wraps(w); self", "ok": ok_ww})
+    if not ok_ww:
+        ctx.anchor("WRAPS-AGREE", "CellWrite::with_wraps")
+    sw = prog.body("<render::TerminalWriter<'_> as render::CellWrite>::set_wraps")
+    ok_sw = False
+    if sw is not None:
+        rc = [(bb, t) for bb, t in sw.calls()]
+        ok_sw = len(rc) == 1 and call_matches(rc[0][1], r"^std::mem::replace$") and arg_place(sw, rc[0][1], 0) == "(*_1).wraps" and expr(sw, rc[0][1]["args"][1]) == "arg2" \
+            and not [x for x in writes_to_field(sw, r"\.wraps") if x[1] != "term"]
+    ctx.instance("WRAPS-AGREE", {"anchor": "TerminalWriter::set_wraps stores its argument in self.wraps", "ok": ok_sw})
+    if not ok_sw:
+        ctx.anchor("WRAPS-AGREE", "TerminalWriter::set_wraps")
+    tw = prog.body("<view::text::Text as render::CellWrite>::wraps")
+    ok_tw = tw is not None and expr(tw, {"k": "copy", "place": {"l": 0, "p": []}}) == "arg1.wraps"
+    ctx.instance("WRAPS-AGREE", {"anchor": "Text::wraps() returns self.wraps (terms CellWrite::wraps(x) are read as x.wraps)", "ok": ok_tw})
+    if not ok_tw:
+        ctx.anchor("WRAPS-AGREE", "Text::wraps")
+    for lp, largs in sorted(callers.items()):
+        lb = prog.body(lp)
+        root = prog.body(lb.closure_root) if (lb is not None and lb.kind == "Closure") else lb
+        if root is None or root.impl_trait != "view::View" or root.name != "layout":
+            continue
+        rpath = re.sub(r"::layout$", "::render", root.path)
+        rb = prog.body(rpath)
+        if rb is None:
+            ctx.anchor("WRAPS-AGREE", rpath)
+            continue
+        want = largs[3]
+        wf = WrapsFlow(prog, default if ok_new else UNKNOWN)
+        wf.scan(rb, {}, None)
+        used = wf.leaves + [(st, ch, site) for st, ch, site, nm in wf.opaque]
+        if not used:
+            ctx.violation("WRAPS-AGREE", rpath, "no-writer", "no put_cell on a writer built by surf.writer(ctx)/TerminalWriter::new is reached from render: the cells its layout measured are not written through an audited path", sites=[rb.loc])
+            continue
+        for st, ch, site in used:
+            ok = st == want
+            ctx.instance("WRAPS-AGREE", {"render": rpath, "layout_wraps": want, "writer_wraps": st, "via": [c.split("::")[-1] if not c.endswith("}") else "::".join(c.split("::")[-2:]) for c in ch[1:]], "ok": ok})
+            if not ok:
+                ctx.violation("WRAPS-AGREE", rpath, "wraps",
+                              "render writes cells (via %s) through a writer whose wraps flag is `%s`, while layout measured the same cells with wraps=`%s`: "
+                              "with the two disagreeing, a line longer than the width is wrapped into rows that layout assigned to the following lines (or the reverse), "
+                              "so cells inside the right edge are overwritten or pushed out" % (" -> ".join(c.split("::")[-1] for c in ch) or "?", st, want), sites=[rb.loc, site])
 
     # ---------------- (d) measuring a glyph fallback == writing it --------------------------------------------------
     ctx.rule("MEASURE-FALLBACK", "Cell::size measures a fallback glyph as the sum of the same per-character width that a single Char cell gets", floor=2)
